@@ -4,4 +4,4 @@ go 1.26.8
 
 require capnproto.org/go/capnp/v3 v3.0.0
 
-replace capnproto.org/go/capnp/v3 => /repo
+replace capnproto.org/go/capnp/v3 => ../../repo
